@@ -1,6 +1,7 @@
 package checks
 
 import (
+	ctok "github.com/pip-services3-gox/pip-services3-expressions-gox/calculator/tokenizers"
 	"fmt"
 	"reflect"
 	"strings"
@@ -37,6 +38,21 @@ var c05ExprPool = []string{"1+2", "a+b", "a<=b", "a<>b", "1<<2", "a>=b", "a>>1",
 
 var c05TmplPool = []string{"x", "{{a}}", "{{{a}}}", "{{#a}}x{{/a}}", "{{^a}}y{{/a}}", "{{#if a}}x{{/if}}", "{{#unless a}}x{{/unless}}", "{{#a}}x", "{{/a}}", "{{a", "{{a}}}", "{{{a}}", "{{!c}}", "Hello {{NAME}}!",
 	"{{#a}}{{#b}}x{{/b}}{{/a}}", "{{#a}}x{{/b}}", "", "{{}}", "{{a b}}", "{{#if}}", "x{{a}}y{{b}}z", "{{'q'}}", "я{{я}}", "{{a}}{{A}}", "{{zz}}{{#zz}}1{{/zz}}", "{{^b}}{{c}}{{/b}}"}
+
+// errStrS formats an error and then, like a caller who owns the value it was handed, overwrites it
+// (code, message, correlation id, details): an error object the library keeps and hands out again
+// shows up as a wrong error later.
+func errStrS(err error) string {
+	out := errStr(err)
+	if ae, ok := err.(*cerr.ApplicationError); ok && ae != nil {
+		ae.Code = ""
+		ae.Message = "overwritten by the caller"
+		ae.CorrelationId = "overwritten-by-the-caller"
+		ae.Details = map[string]interface{}{"overwritten": true}
+		ae.Status = 299
+	}
+	return out
+}
 
 func errStr(err error) string {
 	if err == nil {
@@ -112,6 +128,18 @@ func safeObs(f func() string) (out string) {
 	return f()
 }
 
+func tokObjsStr(ts []*tokenizers.Token) string {
+	p := []string{}
+	for _, t := range ts {
+		if t == nil {
+			p = append(p, "<nil>")
+			continue
+		}
+		p = append(p, tokRec{t.Type(), t.Value(), t.Line(), t.Column()}.String())
+	}
+	return "[" + strings.Join(p, " ") + "]"
+}
+
 func c05Objects() []c05Object {
 	objs := []c05Object{}
 	for _, kind := range tokKinds {
@@ -122,12 +150,44 @@ func c05Objects() []c05Object {
 				t := newTokenizer(kind)
 				setOptions(t, o)
 				c05LastInst = []interface{}{t}
+				// token OBJECTS handed out for the previous input (by a NextToken loop and by TokenizeBuffer)
+				// are kept and looked at again after the next input: they must still say what they said
+				var held, heldList []*tokenizers.Token
+				heldStr, heldListStr := "", ""
 				return func(in string) string {
 					r := tokenizeOn(t, in)
 					if r.failed() {
+						held = nil
 						return "failed(" + r.failStr() + ")"
 					}
-					return tokStr(r.toks)
+					out := tokStr(r.toks)
+					var viaLoop, viaBuffer []*tokenizers.Token
+					pv := fw.Try(func() {
+						t.SetReader(rio.NewStringScanner(in))
+						for tk := t.NextToken(); tk != nil && len(viaLoop) < 4*len(in)+8; tk = t.NextToken() {
+							viaLoop = append(viaLoop, tk)
+						}
+						viaBuffer = t.TokenizeBuffer(in)
+					})
+					if pv != nil {
+						held = nil
+						return out + " second-pass-panics(" + panicShort(pv) + ")"
+					}
+					if held != nil {
+						if now := tokObjsStr(held); now != heldStr {
+							out += " EARLIER-RESULT-CHANGED(" + heldStr + " became " + now + ")"
+						}
+						if now := tokObjsStr(heldList); now != heldListStr {
+							out += " EARLIER-RESULT-LIST-CHANGED(" + heldListStr + " became " + now + ")"
+						}
+					}
+					if a, b := tokObjsStr(viaLoop), tokObjsStr(viaBuffer); a != b {
+						out += " LOOP-AND-BUFFER-DIFFER(" + a + " vs " + b + ")"
+					}
+					held = append(append([]*tokenizers.Token{}, viaLoop...), viaBuffer...)
+					heldStr = tokObjsStr(held)
+					heldList, heldListStr = viaBuffer, tokObjsStr(viaBuffer) // the very slice TokenizeBuffer returned
+					return out
 				}
 			}})
 		}
@@ -138,7 +198,7 @@ func c05Objects() []c05Object {
 		return func(in string) string {
 			return safeObs(func() string {
 				err := p.ParseString(in)
-				return fmt.Sprintf("err=%s result=[%s] vars=%q initial=%d", errStr(err), exprTokensStr(p.ResultTokens()), p.VariableNames(), len(p.InitialTokens()))
+				return fmt.Sprintf("err=%s result=[%s] vars=%q initial=%d", errStrS(err), exprTokensStr(p.ResultTokens()), p.VariableNames(), len(p.InitialTokens()))
 			})
 		}
 	}})
@@ -148,12 +208,12 @@ func c05Objects() []c05Object {
 		return func(in string) string {
 			return safeObs(func() string {
 				err := calc.SetExpression(in)
-				out := "set=" + errStr(err) + " result=[" + exprTokensStr(calc.ResultTokens()) + "]"
+				out := "set=" + errStrS(err) + " result=[" + exprTokensStr(calc.ResultTokens()) + "]"
 				if err == nil {
-					out += safeObs(func() string { v, e := calc.Evaluate(); return " eval=" + variantStr(v) + "/" + errStr(e) })
+					out += safeObs(func() string { v, e := calc.Evaluate(); return " eval=" + variantStr(v) + "/" + errStrS(e) })
 					out += safeObs(func() string {
 						v, e := calc.EvaluateUsingVariables(c05Vars())
-						return " evalvars=" + variantStr(v) + "/" + errStr(e)
+						return " evalvars=" + variantStr(v) + "/" + errStrS(e)
 					})
 				}
 				return out
@@ -166,7 +226,7 @@ func c05Objects() []c05Object {
 		return func(in string) string {
 			return safeObs(func() string {
 				err := p.ParseString(in)
-				return fmt.Sprintf("err=%s result=[%s] vars=%q", errStr(err), mustTokensStr(p.ResultTokens()), p.VariableNames())
+				return fmt.Sprintf("err=%s result=[%s] vars=%q", errStrS(err), mustTokensStr(p.ResultTokens()), p.VariableNames())
 			})
 		}
 	}})
@@ -176,12 +236,12 @@ func c05Objects() []c05Object {
 		return func(in string) string {
 			return safeObs(func() string {
 				err := t.SetTemplate(in)
-				out := "set=" + errStr(err)
+				out := "set=" + errStrS(err)
 				if err == nil {
-					out += safeObs(func() string { v, e := t.Evaluate(); return fmt.Sprintf(" eval=%q/%s", v, errStr(e)) })
+					out += safeObs(func() string { v, e := t.Evaluate(); return fmt.Sprintf(" eval=%q/%s", v, errStrS(e)) })
 					out += safeObs(func() string {
 						v, e := t.EvaluateWithVariables(map[string]string{"a": "v", "b": "w", "name": "N"})
-						return fmt.Sprintf(" evalvars=%q/%s", v, errStr(e))
+						return fmt.Sprintf(" evalvars=%q/%s", v, errStrS(e))
 					})
 				}
 				return out
@@ -197,18 +257,18 @@ func c05Objects() []c05Object {
 			return safeObs(func() string {
 				t.SetDefaultVariables(shared) // Clear() drops the object's defaults; the caller hands the map in again
 				err := t.SetTemplate(in)
-				out := "set=" + errStr(err)
+				out := "set=" + errStrS(err)
 				if err == nil {
-					out += safeObs(func() string { v, e := t.Evaluate(); return fmt.Sprintf(" eval=%q/%s", v, errStr(e)) })
+					out += safeObs(func() string { v, e := t.Evaluate(); return fmt.Sprintf(" eval=%q/%s", v, errStrS(e)) })
 					out += safeObs(func() string {
 						v, e := t.EvaluateWithVariables(shared)
-						return fmt.Sprintf(" evalvars=%q/%s", v, errStr(e))
+						return fmt.Sprintf(" evalvars=%q/%s", v, errStrS(e))
 					})
 				}
 				t.Clear()
 				out += safeObs(func() string {
 					v, e := t.EvaluateWithVariables(shared)
-					return fmt.Sprintf(" after-clear=%q/%s values a=%q b=%q name=%q", v, errStr(e), shared["a"], shared["b"], shared["name"])
+					return fmt.Sprintf(" after-clear=%q/%s values a=%q b=%q name=%q", v, errStrS(e), shared["a"], shared["b"], shared["name"])
 				})
 				return out
 			})
@@ -221,7 +281,7 @@ func c05Objects() []c05Object {
 		return func(in string) string {
 			return safeObs(func() string {
 				err := calc.SetExpression(in)
-				out := "set=" + errStr(err) + " result=[" + exprTokensStr(calc.ResultTokens()) + "]"
+				out := "set=" + errStrS(err) + " result=[" + exprTokensStr(calc.ResultTokens()) + "]"
 				if err == nil {
 					for _, v := range calc.DefaultVariables().GetAll() {
 						h := 0
@@ -230,7 +290,7 @@ func c05Objects() []c05Object {
 						}
 						v.SetValue(variants.VariantFromInteger(h % 1000))
 					}
-					out += safeObs(func() string { v, e := calc.Evaluate(); return " eval=" + variantStr(v) + "/" + errStr(e) })
+					out += safeObs(func() string { v, e := calc.Evaluate(); return " eval=" + variantStr(v) + "/" + errStrS(e) })
 					out += fmt.Sprintf(" defaults=%q", c18Names(calc.DefaultVariables()))
 				}
 				calc.Clear()
@@ -247,6 +307,31 @@ func c05Objects() []c05Object {
 		t.SetFieldSeparators([]rune{0x2016})
 		c05LastInst = []interface{}{t}
 		return func(in string) string {
+			r := tokenizeOn(t, in)
+			if r.failed() {
+				return "failed(" + r.failStr() + ")"
+			}
+			return tokStr(r.toks)
+		}
+	}})
+	// an expression tokenizer used while the exported keyword list alternates between the default one and
+	// an edited one (LIKE dropped, BETWEEN added), depending on the input: the list in force is what counts
+	objs = append(objs, c05Object{name: "expression-tokenizer+keywords-alternating", pool: []string{"a like b", "x between 1", "like", "LIKE+between", "a and b", "1"}, make: func() func(string) string {
+		t := newTokenizer("expression")
+		setOptions(t, 0)
+		c05LastInst = []interface{}{t}
+		return func(in string) string {
+			saved := ctok.Keywords
+			if len(in)%2 == 0 {
+				edited := []string{"BETWEEN"}
+				for _, k := range saved {
+					if k != "LIKE" {
+						edited = append(edited, k)
+					}
+				}
+				ctok.Keywords = edited
+			}
+			defer func() { ctok.Keywords = saved }()
 			r := tokenizeOn(t, in)
 			if r.failed() {
 				return "failed(" + r.failStr() + ")"
@@ -800,7 +885,7 @@ func init() {
 		// the first fresh-instance observation per input is the pristine reference: the hostile neighbour
 		// (decoy.go) only starts after the first cases of a shard have pinned them
 		LateNeighbour: true,
-		Rule: "explicit operation histories on ONE real instance of each of 15 object kinds (a CSV tokenizer with a separator above U+00FF, an ExpressionCalculator cleared after every input with valued automatic variables, 4 tokenizers x {no options, parser options}, ExpressionParser, ExpressionCalculator, MustacheParser, MustacheTemplate, MustacheTemplate cleared after every input and rendering with one caller-owned map): every ordered pair (thorough: triple) of inputs from a pool with every registered multi-character symbol alone and next to its siblings, every token class, unterminated literals, malformed programs; " +
+		Rule: "explicit operation histories on ONE real instance of each of 16 object kinds (an expression tokenizer under an alternating exported keyword list, a CSV tokenizer with a separator above U+00FF, an ExpressionCalculator cleared after every input with valued automatic variables, 4 tokenizers x {no options, parser options}, ExpressionParser, ExpressionCalculator, MustacheParser, MustacheTemplate, MustacheTemplate cleared after every input and rendering with one caller-owned map): every ordered pair (thorough: triple) of inputs from a pool with every registered multi-character symbol alone and next to its siblings, every token class, unterminated literals, malformed programs; " +
 			"after each step the full observation (tokens with positions / compiled program, variable names, error, values under two variable sets / rendering) must equal a freshly constructed instance's; plus every aborted iteration (SetReader, k fetches, abandon) followed by every input, and every pattern in {0,1,2}^m of HasNextToken queries before each fetch; the alternate entry points (ParseTokens / SetOriginalTokens on the instance's own token list, the ...FromExpression / FromTokens / FromString constructors, Clear(), the ...ToStrings tokenizer calls) must give what the main entry point gives on a fresh instance; a new instance must be unaffected after every slice/map handed out by another instance's getters was overwritten and its collections and states were cleared (and, throughout, by whatever this process did before: the fresh-instance observation per input is pinned the first time it is made); one compiled expression under every history of <=3 (thorough 5) steps out of 5 evaluation calls (default variables, two collections, an empty one, explicit functions) and 5 variable replacements (remove+add, SetValue, Clear on a supplied collection and on the defaults), every value compared with a fresh calculator whose variables went through the replacements only; non-trivial = histories of >=2 steps",
 		Assume: []string{"an outcome that is identical on the fresh instance (including a panic) is not a history effect and is left to C03"},
 		Spaces: func(tier string) []fw.Space {
